@@ -65,7 +65,10 @@ def ops : List (String × (Json → Json)) :=
                                                            ("text2", jstr r.text2)]) (roundtrip k m))]),
    ("bld_relative_to", fun a => jstr (relativeTo (getStrD a "path") (getStrD a "root"))),
    ("bld_dump_for_tree", fun a =>
-      exceptJson jstr (dumpForTree (toPy (get a "payload")) (getStrD a "variant") (getStrD a "arch") (getStrD a "basepath"))),
+      let payload := match a.getObjVal? "ops" with
+        | .ok (.arr os) => runOps Mf.empty (os.toList.map (addOp .extraFiles))
+        | _ => toPy (get a "payload")
+      exceptJson jstr (dumpForTree payload (getStrD a "variant") (getStrD a "arch") (getStrD a "basepath"))),
    ("bld_check_nevra", fun a => exceptJson (fun p => jstr p.1) (checkNevra (getStrD a "s"))),
    ("bld_check_uid", fun a => exceptJson (fun p => jstr p.1) (checkUid (toPy (get a "uid"))))]
 
